@@ -5,6 +5,11 @@ ROOT = os.path.dirname(os.path.dirname(os.path.abspath(__file__)))
 
 # id -> (category, technique, text, note, design_ref)
 CHECKS = {
+ "C15": ("model_checking",
+         "stateless model checking of the real code under a cooperative scheduler with happens-before state caching; every schedule is simultaneously a race-detector execution whose happens-before graph only contains the library's own synchronisation (scheduler hand-offs hidden with RaceDisable/RaceEnable)",
+         "Scenarios S-A (rows of different column types), S-B (same statement/portal names, different queries and values), S-C (different users + configured global parameters), thorough: S-D (3 connections), S-E (COPY-in vs queries); scripts pre-loaded one message per segment, handlers with yield points. Every schedule with <=2 preemptions (<=3 for S-A/S-C in thorough) is executed on the instrumented real code built with -race. Oracle 1: each connection's transcript (ParameterStatus as multiset) and callback trace equal those of the same script served alone; the configured parameter map is unchanged. Oracle 2: the race detector reports nothing (reports are attributed to the schedule that just ran and keyed by their frames).",
+         "Race clause relies on the Go race detector's happens-before precision; pgx / stdlib are observed, not instrumented. Harness state shared between threads is only written from //go:norace code so that the harness adds no happens-before edges between connections.",
+         "DESIGN.md §3 C15"),
  "C16": ("model_checking",
          "stateless model checking of the real code under a cooperative scheduler (check-time AST instrumentation of every sync/atomic/channel/go operation, transport operations as scheduling points), depth-first enumeration of all schedules up to a preemption bound with happens-before state caching",
          "Scenarios X1-X5 (X6 in thorough): connections that are idle, in the middle of reading a message, about to start a handler or inside a handler (handlers carry yield points), 1-2 concurrent Close callers plus a later second Close, Close racing the start of Serve. Every schedule with <=2 (quick, 1.26M schedules / 170k happens-before states) or <=3 (thorough) preemptions is executed on the instrumented real code. Oracle on every schedule: no thread panics, no deadlock, every Close and Serve return (Serve nil), no parser/statement function is running when Close returns and none starts afterwards (logical clock).",
